@@ -10,6 +10,8 @@ so an item can get completed by somebody else while the library walks the batch'
 tokens for objects with unusual behaviour (None, falsy, raising __eq__/__bool__/__repr__, exceptions of classes the
 library knows, BaseException-only errors); a case may switch debug options on (KEEP_DEPENDENCIES is part of the model,
 the DUMP_* / profiling options must not change anything); batches of 17 - 300 items form a family of their own.
+A case of the harness subclass may give `_cancel()` - the protected hook BatchBase._computed calls - an Exception to raise
+(key `hook`; model Lib/BatchingHook.lean): the code as it is then violates C11 (OPEN FINDING user/cancel-hook-raises).
 The family `reenter` (a flush body or a completion handler that cancels the batch it is called from) lies outside the
 model: it is sent to the driver in mode `batchingx` and judged by the observer (mode rx) and a direct expectation only.
 
@@ -47,50 +49,59 @@ import random
 PID = "C11"
 LEVEL = "proof"
 LEAN_MODULES = ["AsynqModel.Theorems.C11", "AsynqModel.Theorems.C11s"]
-THEOREMS = [
-    # headline: the observer accepts every history of the model; the invariant; the inductive step for EVERY snapshot
-    # inside the invariant (hypothesis `Good s`, decidable - weaker than reachability)
+HEADLINE = [
+    # the observer accepts every history of the model (for the code as it is: under the hypothesis that the subclass's
+    # `_cancel()` hook does not raise, `hook = none`); the invariant; the inductive step for EVERY snapshot inside the
+    # invariant (hypothesis `Good s`, decidable - weaker than reachability)
+    "AsynqModel.Batching.C11_spec_holds_hook",
     "AsynqModel.Batching.C11_spec_holds",
     "AsynqModel.Batching.C11_no_item_left_pending",
     "AsynqModel.Batching.C11_step_accepted",
-    # per clause of the property text, all with the single hypothesis `Good s`
+    # per clause of the property text, all with the single hypothesis `Good s` (+ the batch / item is pending)
     "AsynqModel.Batching.C11_once",
     "AsynqModel.Batching.C11_flushed",
-    "AsynqModel.Batching.C11_flush",
     "AsynqModel.Batching.C11_item_value_flushes",
     "AsynqModel.Batching.C11_batch_value_flushes",
     "AsynqModel.Batching.C11_cancel",
     "AsynqModel.Batching.C11_quiet",
-    "AsynqModel.Batching.C11_no_add_after_finish",
+    "AsynqModel.Batching.C11_request_joins_active",
+    "AsynqModel.Batching.C11_frame",
     "AsynqModel.Batching.C11_every_change_logged_once",
     "AsynqModel.Batching.C11_items_before_announce",
     "AsynqModel.Batching.C11_fresh_batch_during_flush",
     "AsynqModel.Batching.C11_set_outcome_kept",
     "AsynqModel.Batching.completeItem_fuel_enough",
-    # necessity of the hypothesis `Good s` (machine-checked witness)
+    # necessity of the hypotheses (machine-checked witnesses): `Good s`; `hook = none` (= the OPEN FINDING)
     "AsynqModel.Batching.C11_invariant_needed",
-    # holds by construction of the model (one unfolding, any state): listed for the axiom audit only, the content of
-    # this clause is the correspondence check
-    "AsynqModel.Batching.C11_second_flush_error",
     # several services interleaved, free-standing batches, KEEP_DEPENDENCIES switched in mid-flight (Theorems/C11s.lean)
     "AsynqModel.Batching.C11_services_spec_holds",
     "AsynqModel.Batching.C11_services_no_item_left_pending",
     "AsynqModel.Batching.C11_services_step",
     "AsynqModel.Batching.C11_free_batch_good",
     "AsynqModel.Batching.C11_free_batch_keeps_slot",
-    # by construction of the extended model (listed for the axiom audit)
+]
+# hold by construction of the model (one unfolding, ANY state): audited for axioms, not part of the claim - the content
+# of these clauses of the property is the correspondence check (observer clauses on the recorded result of the real call)
+BY_CONSTRUCTION = [
+    "AsynqModel.Batching.C11_second_flush_error",
+    "AsynqModel.Batching.C11_cancel_finished_noop",
+    "AsynqModel.Batching.C11_no_add_after_finish",
+    "AsynqModel.Batching.C11_flush_cancel_return",
     "AsynqModel.Batching.C11_services_independent",
     "AsynqModel.Batching.C11_keep_switch_good",
 ]
-BY_CONSTRUCTION = [
-    "AsynqModel.Batching.C11_second_flush_error",
-    "AsynqModel.Batching.C11_services_independent (stepM touches component v only: the model gives every service its own "
-    "state because the code looks the slot up under self.name only; that the real services do not disturb each other is "
-    "the correspondence check)",
-    "AsynqModel.Batching.C11_keep_switch_good (the invariant Good does not mention the option)",
-    "first conjunct of C11_flush / C11_cancel (`returns normally`): the model has no exception channel out of "
-    "flush()/cancel(); what is proved with content is the rest of these statements",
-]
+BY_CONSTRUCTION_WHY = {
+    "C11_second_flush_error": "step (.flush b) on a finished batch is literally (s, raised batching, [])",
+    "C11_cancel_finished_noop": "step (.cancel b x) on a finished batch is literally (s, unit, [])",
+    "C11_no_add_after_finish": "newItemOn refuses a finished batch: step (.addTo b p) is literally (s, raised assertAdd, [])",
+    "C11_flush_cancel_return": "the model without the _cancel hook has no exception channel out of flush()/cancel(); with "
+                               "the hook it has one and the clause is FALSE: C11_cancel_hook_counterexample",
+    "C11_services_independent": "stepM touches component v only: the model gives every service its own state because the "
+                                "code looks the slot up under self.name only; that the real services do not disturb each "
+                                "other is the correspondence check",
+    "C11_keep_switch_good": "the invariant Good does not mention the option",
+}
+THEOREMS = HEADLINE + BY_CONSTRUCTION
 BUILDS = {"quick": ["py"], "thorough": ["py", "cy"]}
 RULE = ("systematic core (both batch kinds x 14 flush-script templates x 7 ways of finishing a batch x 6 ways of filling it "
         "- 3 of them with sibling-completing handlers: forward, backward, chain - each followed by the protocol-error "
@@ -122,6 +133,10 @@ TRUSTED = [
     "observer's relaxed mode rx",
     "family `sched` (mode batchingm sched): the expectation written in lean/AsynqModel/Drv/BatchServices.lean handleSched "
     "(no theorem speaks about it) and the scheduler of the library that flushes the batches",
+    "family `svc`: an operation on a service index that does not exist is logged as `(inv)` by the harness and skipped by "
+    "the observer watchM (harness-trusted); the line `(pre v ok)` (after the throw-away request that brings a DebugBatch "
+    "slot into existence was finished, the slot holds a pending, empty batch) is computed in Python and only read by "
+    "the driver (a direct expectation, Drv/BatchServices.lean)",
     "family `svc`: the helper threads of the harness (one call at a time, the main thread waits), the read of the "
     "thread-local registry `asynq.batching._debug_batch_state.batches.get(name)` for the snapshot (read-only)",
 ]
@@ -131,12 +146,29 @@ ASSUMPTIONS = [
     "completion handler) happens only in the family `reenter`, which is outside the model: no theorem speaks about it, "
     "it is judged by the observer Batching.specClause in mode rx (the outcome found at the end of the body stands; the "
     "outcome of a DebugBatch is not judged) plus the direct expectation in Drv/Batching.lean handleX",
-    "the protected hooks of the subclass other than _flush do not raise: `_cancel()` is `pass` in the harness subclass "
-    "(DebugBatch._cancel only writes a debug line), `_try_switch_active_batch()` only installs a fresh batch "
-    "(its docstring: 'Must never throw an error').  A `_cancel()` that raises makes cancel() - and flush() of a failing "
-    "body - raise, leaves the batch finished with its items pending for ever and unannounced, and item.value() return "
-    "the internal marker (batching.py:118-134; reproduced, see INTEGRATION.md A7): the property text quantifies over "
-    "what FLUSH BODIES do, so this lies outside the statement; neither model nor generator contain it",
+    "re-entering a batch from its own flush body is outside the quantifier of the property (it lists bodies that set "
+    "items, set errors, raise, or create new items) and is NOT harmless: a body that calls item.value() of an item of "
+    "the batch being flushed runs the flush body a SECOND time (BatchItemBase._compute -> batch.flush() -> is_computed() "
+    "is still False; reproduced on the current tree: runs=2) - not generated, not modelled, no theorem",
+    "the protected hook `_try_switch_active_batch()` only installs a fresh batch (its docstring: 'Must never throw an "
+    "error').  The hook `_cancel()` IS part of model and generator (case key `hook`: the harness subclass's _cancel() "
+    "raises an Exception token 1-4; model Lib/BatchingHook.lean stepH): HYPOTHESIS `hook = none` of "
+    "C11_spec_holds_partial, necessity witness C11_cancel_hook_counterexample = the OPEN FINDING "
+    "`user/cancel-hook-raises` (cancel() raises, items pending for ever; proposed-fixes/C11-cancel-hook-raises.diff).  A `_cancel()` that "
+    "raises a BaseException which is not an Exception is not generated (the proposed fix treats the hook like an "
+    "on_computed callback, futures.py:131-140: Exceptions are reported and swallowed, BaseExceptions propagate); "
+    "DebugBatch._cancel is library code (a debug line) and has no hook in the model",
+    "the interpreter runs with assertions enabled: 'no item can be added to a finished batch' is an `assert` in "
+    "BatchItemBase.__init__ (batching.py:210-212); under `python -O` / PYTHONOPTIMIZE the constructor ACCEPTS the item, "
+    "which then stays pending for ever and value() returns the internal marker (reproduced on the current tree).  The "
+    "harness does not run under -O; proposed (not applied) fix: `if batch.is_flushed(): raise AssertionError(...)`",
+    "errors given to cancel(error) / set_error are exception OBJECTS (tokens 1-8); cancel(0) or another non-exception "
+    "makes item.value() raise TypeError ('exceptions must derive from BaseException') - not generated.  Exception and "
+    "BaseException tokens are ONE constructor `Err.user n` in the model: that `_compute` catches BaseException and not "
+    "only Exception is seen by the correspondence check (tokens 5-8 are BaseException-only objects), not by a theorem",
+    "items are constructed through the service (`add`, `newItem`, `spawn`) or by the client on a batch between two "
+    "operations (`addTo`); a flush body that constructs an item directly on the batch being flushed (while "
+    "DebugBatch._flush walks the live list) is not generated",
     "on_computed handlers of items only log, issue new requests and complete pending items of the SAME batch; handlers "
     "that raise are C10's subject; handlers that re-enter flush()/cancel()/value() of a batch are not generated",
     "of the debug options only KEEP_DEPENDENCIES exists in the model (a configuration in the single-service model, "
@@ -159,8 +191,16 @@ ASSUMPTIONS = [
     "for DebugBatch the flush body itself cannot be hooked through public API: its runs are observed through the "
     "item completions only (run counter fixed to 0, no body/bodyEnd events; the observer then demands the outcome "
     "None or FutureIsAlreadyComputed)",
-    "`flush()` / `cancel()` return normally: true of the model by construction (no exception channel); for the "
-    "implementation it is the observer's clauses flush-total / cancel-total on the recorded result",
+    "`flush()` / `cancel()` return normally: without the hook true of the model by construction "
+    "(C11_flush_cancel_return, BY_CONSTRUCTION); for the implementation it is the observer's clauses flush-total / "
+    "cancel-total on the recorded result - which is how the open finding is seen",
+    "'with the value the flush body set': the observer does not see the scripts, so that the value in the log is the "
+    "one the script named rests on the correspondence check; the theorems say that what harness code set is kept "
+    "(C11_set_outcome_kept) and that the library sets nothing but the batch's error / 'not set' / `_result` on items "
+    "of the batch being finished (C11_items_before_announce, C11_frame)",
+    "family sched: the expectations `sched-batches-N-for-R-rounds` and `sched-batch-size` (how many batches form and "
+    "how big they are) are the scheduler's batching behaviour - C04's subject, kept here as a regression expectation; "
+    "C11 proper says nothing about them",
 ]
 CASE_TIMEOUT = 20
 UNKNOWN = 999999
@@ -242,6 +282,8 @@ def gen_case(rng, size=None):
         c["pre"] = rng.choice(["flush", "flush", "cancel", "value"])
         if rng.random() < 0.6:
             c["name"] = rng.choice(UNIQUE_NAMES)      # the service's name: any dictionary key
+    elif rng.random() < 0.05:
+        c["hook"] = rng.randint(1, 4)                 # the subclass's _cancel() raises this Exception
     return c
 
 
@@ -295,6 +337,15 @@ def systematic():
             for fin in FINISHERS:
                 for adds in ADDS:
                     cases.append(_case(kind, t, fin, adds))
+    # the protected hook `_cancel()` of the subclass raises an Exception (BatchBase._computed calls it when the batch
+    # finishes with an error): bodies that return / raise Exception / raise BaseException x every way of finishing
+    for hk, t in ((1, TEMPLATES[0]), (1, TEMPLATES[1]), (2, TEMPLATES[6]), (3, TEMPLATES[7]), (4, TEMPLATES[8]),
+                  (1, TEMPLATES[11]), (2, TEMPLATES[3])):
+        for fin in FINISHERS:
+            for adds in (ADDS[0], ADDS[3]):
+                c = _case("user", t, fin, adds)
+                c["hook"] = hk
+                cases.append(c)
     # DebugBatch under every kind of name (the slot is a dictionary entry; the key is whatever the client passed)
     for nk in UNIQUE_NAMES[1:]:
         for fin in FINISHERS:
@@ -574,6 +625,8 @@ def shrink(case):
             yield c
         return
     ops, scripts = case["ops"], case["scripts"]
+    if case.get("hook"):
+        yield {k: v for k, v in _with(case).items() if k != "hook"}
     if case.get("opts"):
         for o in case["opts"]:
             yield _with(case, opts=[x for x in case["opts"] if x != o])
@@ -624,7 +677,7 @@ def neighbours(case, rng):
                 yield _with(case, name=nk)
     for k in KINDS:
         if k != case["kind"]:
-            yield _with(case, kind=k)
+            yield {kk: v for kk, v in _with(case, kind=k).items() if kk != "hook"}
     if case.get("opts"):
         yield _with(case, opts=[])
     for _ in range(30):
@@ -652,6 +705,11 @@ def signature(case, v):
         return "svc-%s%s/%s" % ("+".join(kinds), "" if names <= {"plain"} else "-nonstr-name", v["spec"])
     if case["kind"] == "debug" and case.get("name", "plain") != "plain":
         return "debug-nonstr-name/%s" % v["spec"]
+    if case["kind"] == "user" and case.get("hook"):
+        # the subclass's _cancel() raises.  ONE signature for the open finding, and only when the implementation did
+        # exactly what the model of the defective code (Lib/BatchingHook.lean stepH) predicts (CORR=ok): anything else
+        # that goes wrong in such a case keeps its own signature and is not masked by the recorded finding
+        return "user-cancel-hook/%s" % v["spec"]
     return "%s/%s" % (case["kind"], v["spec"])
 
 
@@ -937,6 +995,7 @@ def _run_single(case):
     items, itoks = [], {}
     payload, spawn, links, recs = [], [], [], []   # per item token (side tables: compiled classes take no new attributes)
     reenter_fam = case.get("fam") == "reenter"
+    hook = case.get("hook") if kind == "user" and not reenter_fam else None
     xlines = []
     flag = {"in_set": False}
     stats = {"during": 0, "linked": 0}
@@ -1090,7 +1149,10 @@ def _run_single(case):
                         raise ValueError(a)
 
             def _cancel(self):
-                pass
+                # "you can add some additional logic here, if you want to" (batching.py:145-155)
+                stats["cancel_hook"] = stats.get("cancel_hook", 0) + 1
+                if hook is not None:
+                    raise errs[hook]
 
         class MyItem(batching.BatchItemBase):
             pass
@@ -1198,7 +1260,9 @@ def _run_single(case):
         if reenter_fam:
             lines = ["(case batchingx %d %s (keep %d))" % (case["id"], kind, 1 if keep else 0)]
         else:
-            lines = ["(case batching %d %s (keep %d) %s)" % (case["id"], kind, 1 if keep else 0, script_sexp(scripts))]
+            lines = ["(case batching %d %s (keep %d) %s%s)" % (case["id"], kind, 1 if keep else 0,
+                                                             "(hook %d) " % hook if hook is not None else "",
+                                                             script_sexp(scripts))]
         for op in case["ops"]:
             del events[:]
             name_ = op[0]
@@ -1304,11 +1368,15 @@ def _run_single(case):
     feats.append("sibling-completed-by-handler=%d" % min(stats["linked"], 3))
     if reenter_fam:
         feats.append("reentrant-cancel-of-pending-batch=%d" % min(stats.get("recancel", 0), 3))
+    if kind == "user":
+        feats.append("cancel-hook=%s" % ("returns" if hook is None else "raises"))
+        if hook is not None:
+            feats.append("cancel-hook-raised=%d" % min(stats.get("cancel_hook", 0), 3))
     feats.append("batches=%d" % min(len(batches), 6))
     feats.append("finished-with-items=%d" % min(finished_with_items, 3))
     nontrivial = None
     if finished_with_items >= 1 and len(case["ops"]) >= 3:
-        nontrivial = hashlib.sha1(json.dumps([kind, opts, scripts, case["ops"]]).encode()).hexdigest()[:16]
+        nontrivial = hashlib.sha1(json.dumps([kind, opts, scripts, case["ops"], hook]).encode()).hexdigest()[:16]
     return {"lines": lines, "features": feats, "nontrivial": nontrivial}
 
 
